@@ -235,9 +235,14 @@ pub fn c14_factor_shape(loc: &str) -> Value {
         if get(Source::INSITU, d, Step::A) != (0.0, 0.0) { bad.push(format!("export {:?} step A carries non-renewable energy or emissions", d)); }
         if get(Source::INSITU, d, Step::B) != g { bad.push(format!("export {:?} step B is not the grid factor", d)); }
     }
+    // c14_ren_shape: renewable parts
+    let getr = |s: Source, d: Dest, st: Step| w.wdata.iter().find(|f| f.carrier == el && f.source == s && f.dest == d && f.step == st).map(|f| f.ren).unwrap_or(0.0);
+    let f1 = getr(Source::INSITU, Dest::SUMINISTRO, Step::A);
+    if getr(Source::INSITU, Dest::A_NEPB, Step::A) != f1 || getr(Source::INSITU, Dest::A_RED, Step::A) != f1 { bad.push("on-site electricity exported at step A with another renewable factor than delivered".into()); }
+    if getr(Source::RED, Dest::SUMINISTRO, Step::A) > f1 { bad.push("renewable part of the grid factor above the on-site factor".into()); }
     if w.wdata.iter().any(|f| f.source == Source::COGEN) { bad.push("a factor with source COGEN".into()); }
     if w.wdata.iter().any(|f| f.source == Source::RED && f.dest == Dest::SUMINISTRO && f.step == Step::A && (f.nren < 0.0 || f.co2 < 0.0)) { bad.push("a negative grid factor".into()); }
-    json!({"hypothesis": "c14_factors (premise of thm_c14_nren_co2_cgn; c14_shape is its electricity part)", "loc": loc, "holds": bad.is_empty(), "violations": bad})
+    json!({"hypothesis": "c14_factors + c14_ren_shape (premises of thm_c14_nren_co2_cgn and thm_c14_rer; c14_shape is the electricity part)", "loc": loc, "holds": bad.is_empty(), "violations": bad})
 }
 /// the executable reading of spec/rel_c13.rs::c13_factors on the normalized regulatory factor set of a location
 pub fn c13_factor_shape(loc: &str) -> Value {
